@@ -2,6 +2,9 @@
 """Harmless changes written by independent sub-agents (realistic refactors, rebalances, optimisations that keep
 the property): the checks must stay silent on them.
 
+`run` works from the committed copies in /verif/seeded/benign/<Cxx>-b<k>/patch.diff; `confirm` and `store` need the
+agents' scratch directories under /tmp/mut, which were removed at the end of the build phase.
+
   benign.py confirm <Cxx> <k>            suite still passes with the change (agent's scratch worktree)
   benign.py run <Cxx> <k> [check ids..]  apply to /repo, run ./check <id> quick for each id (default: own), undo
   benign.py store <Cxx> <k> <json>       copy patch + notes + record to /verif/seeded/benign/<Cxx>-b<k>/
